@@ -302,7 +302,7 @@ void *longhold_holder(void *) {
     struct timespec ts = {0, 20000000L}; nanosleep(&ts, NULL);
     struct timespec w1, c1; clock_gettime(CLOCK_MONOTONIC, &w1);
     double wall = (w1.tv_sec - w0.tv_sec) * 1e3 + (w1.tv_nsec - w0.tv_nsec) / 1e6, cpu = 0;
-    if (have) { clock_gettime(wc, &c1); cpu = (c1.tv_sec - c0.tv_sec) * 1e3 + (c1.tv_nsec - c0.tv_nsec) / 1e6; }
+    if (have) { if (clock_gettime(wc, &c1) != 0) break; /* the waiter is gone: its lock call returned */ cpu = (c1.tv_sec - c0.tv_sec) * 1e3 + (c1.tv_nsec - c0.tv_nsec) / 1e6; }
     if (g.lock == 'm' ? wall >= std::min(1000L, g.hold_ms) : cpu >= g.hold_ms) break;
     if (wall >= 20.0 * g.hold_ms) break;
   }
@@ -331,8 +331,81 @@ Outcome run_longhold_case(const Case &c) {
   LH = nullptr;
   return o;
 }
+// bare polling loops: `while (!trylock (l)) ++n;` with nothing else in the loop body, and two trylocks back to back.  What a caller's
+// compiler may do with such code depends on how the HEADERS declare the functions (a `pure`/`const` attribute lets it hoist or merge the
+// calls), so this is compiled here, at the harness's optimisation level, against the headers of the tree under test.
+struct TryPoll { PMutex *m = nullptr; PSpinLock *s = nullptr; std::atomic<int> held{0}, got{0}, bad{0}; pthread_t poller; std::atomic<int> poller_started{0}; };
+TryPoll *TP = nullptr;
+void *trypoll_poller_spin(void *) {
+  TryPoll &g = *TP; unsigned long n = 0;
+  while (g.held.load() == 0) sched_yield();
+  g.poller_started.store(1);
+  while (!p_spinlock_trylock(g.s)) ++n;                 // the loop under test: nothing but the call
+  if (g.held.load() == 1) g.bad.store(1);               // "succeeded" while the holder is inside
+  g.got.store(1);
+  p_spinlock_unlock(g.s);
+  return (void *)n;
+}
+void *trypoll_poller_mutex(void *) {
+  TryPoll &g = *TP; unsigned long n = 0;
+  while (g.held.load() == 0) sched_yield();
+  g.poller_started.store(1);
+  while (!p_mutex_trylock(g.m)) ++n;
+  if (g.held.load() == 1) g.bad.store(1);
+  g.got.store(1);
+  p_mutex_unlock(g.m);
+  return (void *)n;
+}
+Outcome run_trypoll_case(const Case &c) {
+  Outcome o; TryPoll g; TP = &g;
+  auto fail = [&](const string &k, const string &m) { if (o.verdict.empty()) { o.verdict = m; o.klass = k; } };
+  g.m = p_mutex_new(); g.s = p_spinlock_new();
+  bool spin = c.lock == 's';
+  // two trylocks in a row on a free lock: the first takes it, the second must see it taken
+  {
+    pboolean a = spin ? p_spinlock_trylock(g.s) : p_mutex_trylock(g.m);
+    pboolean b = spin ? p_spinlock_trylock(g.s) : p_mutex_trylock(g.m);
+    if (!a) fail("trylock-free", "trylock on a free, uncontended lock returned FALSE");
+    else if (b) fail("trylock-held", "two trylock calls in a row both returned TRUE (the second one while the lock is held)");
+    if (a) { if (spin) p_spinlock_unlock(g.s); else p_mutex_unlock(g.m); }
+    if (b) { /* state unknown */ }
+  }
+  if (o.verdict.empty()) {
+    if (spin) p_spinlock_lock(g.s); else p_mutex_lock(g.m);
+    g.held.store(1);
+    pthread_create(&g.poller, NULL, spin ? trypoll_poller_spin : trypoll_poller_mutex, NULL);
+    while (!g.poller_started.load()) sched_yield();
+    struct timespec ts = {0, 30000000L}; nanosleep(&ts, NULL);   // the poller's first attempts fail
+    g.held.store(2);
+    if (spin) p_spinlock_unlock(g.s); else p_mutex_unlock(g.m);
+    // the lock is free and uncontended now: a trylock has to succeed.  The poller does nothing but call it, so once it has burnt 2 s of CPU
+    // time after the release without getting the lock, no call it made succeeded (or it makes none any more)
+    clockid_t wc; bool have = pthread_getcpuclockid(g.poller, &wc) == 0; struct timespec c0 = {0, 0}; if (have && clock_gettime(wc, &c0) != 0) have = false;
+    struct timespec w0; clock_gettime(CLOCK_MONOTONIC, &w0);
+    for (;;) {
+      if (g.got.load()) break;
+      struct timespec t2 = {0, 10000000L}; nanosleep(&t2, NULL);
+      struct timespec c1, w1; clock_gettime(CLOCK_MONOTONIC, &w1); double cpu = 0;
+      if (have && clock_gettime(wc, &c1) == 0) cpu = (c1.tv_sec - c0.tv_sec) + (c1.tv_nsec - c0.tv_nsec) / 1e9;   // (fails once the thread has exited)
+      if (g.got.load()) break;
+      if (cpu >= 2.0 && cpu < 1e6) {
+        string v = string(spin ? "p_spinlock_trylock" : "p_mutex_trylock") + " in a bare polling loop never succeeded although the lock has been free and uncontended while the polling thread spent 2 s of CPU time calling it";
+        vl::report_failure("rt", to_text(c), vl::env("VERIF_PROP", "C01") + ":trylock-poll: " + v, "trylock-poll"); vl::stats().flush();
+        printf("REPLAY-FAIL %s:trylock-poll: %s\n", vl::env("VERIF_PROP", "C01").c_str(), v.c_str()); fflush(stdout);
+        _exit(1);   // the polling thread cannot be stopped
+      }
+      if ((w1.tv_sec - w0.tv_sec) > 120) { o.nontrivial = false; break; }   // starved machine: decides nothing
+    }
+    if (g.got.load()) { pthread_join(g.poller, NULL); if (g.bad.load()) fail("trylock-held", "a bare trylock polling loop ended (trylock \"returned TRUE\") while the holder was still inside its critical section"); }
+  }
+  if (o.verdict.empty() && g.got.load()) { p_mutex_free(g.m); p_spinlock_free(g.s); }
+  o.nontrivial = true; o.fp = vl::fnv1a(to_text(c)); vl::stats().klass(string("kind_trypoll_") + c.lock);
+  TP = nullptr;
+  return o;
+}
 Outcome run_case(const Case &c) {
   if (c.kind == "thr") return run_threads_case(c);
+  if (c.kind == "trypoll") return run_trypoll_case(c);
   if (c.kind == "longhold") return run_longhold_case(c);
   if (c.kind == "rwmany") return run_rwmany_case(c);
   Outcome o;
